@@ -121,7 +121,10 @@ def confirm_tree(ctx, mode, rec, fail):
 def mutants(toks):
     idx = [i for i, t in enumerate(toks) if t not in LAYOUT_TOKS]
     for i in idx:
-        yield "del", toks[:i] + toks[i + 1:]
+        # deleting the only token of a line would leave a blank line, which is not a line at all
+        alone = (i == 0 or toks[i - 1] in LAYOUT_TOKS) and (i == len(toks) - 1 or toks[i + 1] in LAYOUT_TOKS)
+        if not alone:
+            yield "del", toks[:i] + toks[i + 1:]
         yield "dup", toks[:i + 1] + toks[i:]
     for a, b in zip(idx, idx[1:]):
         if b == a + 1 and toks[a] != toks[b]:
@@ -384,7 +387,22 @@ def lit_cases(ctx, rnd):
 
 
 def lit_signature(c):
-    return "lit:%s:%s" % (c["cat"], c["fam"])
+    """family of the literal, refined so that different defects get different signatures"""
+    sig = "lit:%s:%s" % (c["cat"], c["fam"])
+    text = show(c["lit"])
+    if c["cat"] == "num":
+        try:
+            v = int(text, 0)
+            base = {"x": "hex", "o": "octal", "b": "binary"}.get(text[1:2].lower(), "decimal")
+            sig = "lit:num:%s:%s" % (base, ">=2^63" if v >= 2 ** 63 else "<2^63")
+        except ValueError:
+            pass
+    else:
+        m = re.search(r"\\(.)", text)
+        if m:
+            e = m.group(1)
+            sig += ":esc-" + ("octal" if e in "01234567" else e if e.isalnum() else "x%02x" % ord(e))
+    return sig
 
 
 def scan_lits(ctx, cases, tag="lits"):
@@ -439,6 +457,9 @@ def plan(ctx):
 def run(ctx):
     rnd = random.Random(ctx.seed)
     pl = plan(ctx)
+    parts = os.environ.get("C14_PARTS", "abc")      # development aid: run only some parts
+    if "a" not in parts:
+        pl["expr"], pl["file"] = pl["expr"][:1], pl["file"][:1]
     cov = ctx.cov
     cov["trees"] = {}
     n_texts = n_distinct = n_nodes = n_trees = 0
@@ -475,13 +496,13 @@ def run(ctx):
 
     # ---- (c) near misses
     near_n = 0
-    for mode in ("expr", "file"):
+    for mode in (("expr", "file") if "c" in parts else ()):
         n_orig, max_len = pl["near"][mode]
         cases = run_near(ctx, rnd, "near-" + mode, mode, pools[mode], n_orig, max_len, cov)
         near_n += len(cases)
 
     # ---- (b) literals
-    cases = lit_cases(ctx, rnd)
+    cases = lit_cases(ctx, rnd) if "b" in parts else []
     nid = len(cases)
     for l in tree_lits.values():
         nid += 1
